@@ -139,6 +139,20 @@ def _gen_api_op(rng, index, group, first):
 SWEEP_FOLLOWERS = ["h_atx", "ul_star", "fence_back", "bq_starts", "ws_trailing", "in_emph_space", "lrd_use", "pr_victim", "edge_one_line", "h_setext", "ol_ordered", "in_html"]
 CHAIN_WIDTH = 10
 ALL_OPTIONAL = ["-e", "md002,md006,pml100,pml101"]
+# settings that switch on the more stateful code paths of several rules (tracking of code
+# blocks, required headings, proper names ...): a third of the chains runs under them
+SENSITIVE_CONFIG = [
+    "-e", "md002,md006,pml100,pml101",
+    "--set", "plugins.md010.code_blocks=$!False",
+    "--set", "plugins.md013.code_blocks=$!False",
+    "--set", "plugins.md013.headings=$!False",
+    "--set", "plugins.md044.names=Title,Big,Links,Uses",
+    "--set", "plugins.md044.code_blocks=$!False",
+    "--set", "plugins.md043.headings=# T,*",
+    "--set", "plugins.md029.style=ordered",
+    "--set", "plugins.md033.allowed_elements=b",
+    "--set", "plugins.md024.siblings_only=$!True",
+]
 
 
 def chain_plan(tier):
@@ -228,6 +242,8 @@ def _gen_chain(tier, index):
             labels[path] = name
             position += 1
     flags = list(ALL_OPTIONAL) if optional else []
+    if index % 3 == 2:
+        flags = list(SENSITIVE_CONFIG)
     flags = ["--continue-on-error"] + flags
     if dirty:
         flags += workload.probe_flags(["zzz999"])
